@@ -276,4 +276,56 @@ def reapRaw {β} (P : Perms) (nanLike : β → β) (s : St β) (o : ReapOpts) : 
     let s2 := if cleanUpResolved o.cleanUp o.allowIncomplete then { s1 with dir := none } else s1
     .ok (s2, out)
 
+/-! ### crops attached to a farmer (Runner / Harvester / Sampler): order of delivery and deletion -/
+
+inductive FarmerKind where
+  | raw | runner | harvester | sampler
+deriving Repr, DecidableEq
+
+/-- failures injected by the environment: the output description does not fit the results (dataset / dataframe
+construction raises); syncing with the farmer's store fails (merge conflict, save error) -/
+structure Env where
+  labelFails : Bool := false
+  deliverFails : Bool := false
+deriving Repr
+
+inductive FErr where
+  | gather (e : Err)     -- check_ready / loading results failed
+  | label                -- results could not be labelled
+  | deliver              -- add_ds / add_df failed
+deriving Repr
+
+structure FOut (β : Type) where
+  /-- the state after the attempt, *including* whatever was already done when an error occurred -/
+  st : St β
+  res : Except FErr (List β)
+  /-- did the farmer's store receive the data -/
+  delivered : Bool
+
+/-- does this farmer's reap postpone the deletion of the crop until its store has the data? -/
+def defers : FarmerKind → Bool
+  | .harvester => Gen.harvestDefersCleanup
+  | .sampler => Gen.samplesDefersCleanup
+  | _ => false
+
+def removeDir {β} (s : St β) : St β := { s with dir := none }
+
+/-- `Crop.reap` for each farmer kind, as a sequence of effects: gather → label → [clean up] → deliver → [clean up] -/
+def reapFarmer {β} (P : Perms) (nanLike : β → β) (k : FarmerKind) (env : Env) (s : St β) (o : ReapOpts) : FOut β :=
+  let outer := cleanUpResolved o.cleanUp o.allowIncomplete
+  let inner : ReapOpts := if defers k then { o with cleanUp := some false } else o
+  match reapLinear P nanLike s inner with
+  | .error e => { st := s, res := .error (.gather e), delivered := false }
+  | .ok (s1, _, results) =>
+    if k != .raw && env.labelFails then { st := s1, res := .error .label, delivered := false } else
+    let s2 := if cleanUpResolved inner.cleanUp inner.allowIncomplete then removeDir s1 else s1
+    match k with
+    | .raw => { st := s2, res := .ok results, delivered := false }
+    | .runner => { st := s2, res := .ok results, delivered := true }
+    | _ =>
+      if env.deliverFails then { st := s2, res := .error .deliver, delivered := false }
+      else
+        let s3 := if defers k && outer then removeDir s2 else s2
+        { st := s3, res := .ok results, delivered := true }
+
 end Crop
